@@ -32,7 +32,7 @@ def _job(job):
 
             c = dict(drivers.DEFAULTS)
             c.update(job["conf"])
-            rec = ps.Recorder(c["n_dim"], have_blobs=(c["evaluation"] == "blobs"), label=job.get("label", ""))
+            rec = ps.Recorder(c["n_dim"], have_blobs=(c["evaluation"] in ("blobs", "blobs2")), label=job.get("label", ""))
             np.random.seed(job["seed"])
             sampler, _ = drivers.build_sampler(job["conf"], rec)
             rw = sampler._core.reweighter
@@ -104,7 +104,7 @@ def resume_job(job):
         conf = job["conf"]
         c = dict(drivers.DEFAULTS)
         c.update(conf)
-        rec = ps.Recorder(c["n_dim"], have_blobs=(c["evaluation"] == "blobs"), label=job["label"])
+        rec = ps.Recorder(c["n_dim"], have_blobs=(c["evaluation"] in ("blobs", "blobs2")), label=job["label"])
         _, s, tr = drivers.record_run(conf, n_total=job["n_total"], seed=job["seed"], label=job["label"] + "|base", save_every=job["save_every"],
                                       out_dir=out_dir, rec=rec)
         traces.append(tr)
